@@ -24,7 +24,10 @@ RULE = ("streams: shapes = every CSV table with header width 0..3, 0..2 data row
         "hand-written without positions, hand-written with positions 0.., loaded externally, or hand-written with an explicit position per name "
         "= a re-ordered subset of the file's columns so that position 0 is not listed first; each over its own distinct names) on ONE Sheet "
         "object before rows(), every listed pattern (loader then schema, schema then loader, loader-schema-loader, schema twice, ...) on a fixed table "
-        "plus random sequences on random tables; ext also incl. a few sheets with a blank line or a repeated name (outside the domain: not judged). CSV for all, XLSX for a sample (quick) / for as many again (thorough). "
+        "plus random sequences on random tables; duplicate-headings = heading rows of 2-5 columns in which one or two names are repeated "
+        "(every heading row of 2-4 columns over three names that repeats a name, with one data row of every length 0..width; random ones "
+        "from the heading pool, 1-6 rows of full and short length, one probed name that heads no column) - judged: known finding "
+        "K-duplicate-heading-last-wins; ext also incl. a few sheets with a blank line or a repeated name (outside the domain: not judged). CSV for all, XLSX for a sample (quick) / for as many again (thorough). "
         "Non-trivial = at least one data row delivered (branch not in 0/20/40/80); distinct = distinct case lines.")
 TRIVIAL_BRANCHES = [0, 20, 40, 80]
 ASSUMPTIONS = [
@@ -80,6 +83,23 @@ def _table(rng, fmt):
     return [_headings(rng, fmt, n)] + _ragged_rows(rng, fmt, n, rng.randint(0, 8))
 
 
+def _dup_table(rng, fmt):
+    """a heading row of 2-5 columns in which one or two names are repeated; 1-6 data rows, at least one of full length and one
+    shorter (never longer than the heading row: XLSX would pad the heading row with None cells)"""
+    n = rng.randint(2, 5)
+    extra = 1 if n < 4 or rng.random() < 0.6 else 2          # columns whose name is already there
+    names = _headings(rng, fmt, n - extra)
+    if extra == 2 and len(names) >= 2 and rng.random() < 0.5:
+        head = names + rng.sample(names, 2)                    # two names twice each
+    else:
+        head = names + [rng.choice(names)] * extra             # one name twice (or three times)
+    rng.shuffle(head)
+    lo = 0 if fmt == "csv" else 1
+    lens = [n, rng.randint(lo, n - 1)] + [rng.randint(lo, n) for _ in range(rng.randint(0, 4))]
+    rng.shuffle(lens)
+    return [head] + [[_cell(rng, fmt) for _ in range(k)] for k in lens]
+
+
 def _ops(rng, fmt, pattern, kind, ncols=3):
     """L = set_schema_loader(HeadingRowSchemaLoader()), N = set_schema_loader(SchemaLoader()),
     S = set_schema(schema over fresh distinct names; kind 0 hand-written, 1 with positions 0.., 2 loaded externally,
@@ -119,6 +139,16 @@ def inputs(ctx):
         for names, pos in ((["b", "a"], [1, 0]), (["c", "b", "a"], [2, 1, 0]), (["c", "a"], [2, 0]), (["b"], [1]), (["a", "z"], [0, 5])):
             yield "shapes", {"stream": "bind", "fmt": fmt, "table": [["x", "y", "z"], ["1", "2", "3"], ["4"]],
                              "ops": [["schema", 3, names, pos]]}
+    # --- a repeated heading name (known finding K-duplicate-heading-last-wins): every heading row of 2-4 columns over three
+    #     names in which a name is repeated, with one data row of every length 0..width (distinct cell labels)
+    ctx.exhaustive.append("duplicate_headings_width_2..4_over_3_names_rowlen_0..width")
+    for n in (2, 3, 4):
+        for head in itertools.product("abc", repeat=n):
+            if len(set(head)) < n:
+                yield "duplicate-headings", {"stream": "dupheads", "fmt": "csv",
+                                             "table": [list(head)] + [[f"r{k}c{j}" for j in range(k)] for k in range(n, -1, -1)]}
+    for fmt in ("csv", "xlsx"):
+        yield "duplicate-headings", {"stream": "dupheads", "fmt": fmt, "table": [["id", "name", "id"], ["1", "Ann", "7"], ["2", "Bob"]]}
     # --- binding calls on one Sheet object: every pattern below on a fixed table, both formats
     patterns = ["S", "L", "LS", "SL", "LSL", "SS", "NS", "SN", "LNS", "LSN", "SLS", "LLS", "SLN", "LSS", "NLS", "SSL"]
     ctx.exhaustive.append("binding_patterns_" + "_".join(patterns))
@@ -131,8 +161,11 @@ def inputs(ctx):
     # --- random tables
     budget = {"csv": (400, 60, 300, 250, 300), "xlsx": (60, 10, 40, 40, 40)} if quick else \
              {"csv": (6000, 600, 5000, 4000, 5000), "xlsx": (5000, 400, 3000, 2500, 2500)}
+    n_dupheads = {"csv": 150, "xlsx": 30} if quick else {"csv": 2000, "xlsx": 400}
     for fmt in ("csv", "xlsx"):
         n_header, n_dup, n_perm, n_ext, n_bind = budget[fmt]
+        for _ in range(n_dupheads[fmt]):
+            yield "duplicate-headings", {"stream": "dupheads", "fmt": fmt, "table": _dup_table(rng, fmt)}
         for _ in range(n_header):
             yield "header", {"stream": "header", "fmt": fmt, "table": _table(rng, fmt)}
         for _ in range(n_dup):
@@ -364,6 +397,16 @@ def observe(ctx, inp):
         if inp["stream"] == "header":
             probes, obs = _read_header(fmt, folder, "t", inp["table"])
             return [0, f, W(inp["table"]), probes, obs]
+        if inp["stream"] == "dupheads":
+            from stingray.workbook import HeadingRowSchemaLoader
+            table = inp["table"]
+            probes = list(table[0]) + ["no such heading"]
+            wb, name = _open(fmt, _write(fmt, folder, "t", table))
+            try:
+                obs = _read(wb.sheet(name).set_schema_loader(HeadingRowSchemaLoader()), probes)
+            finally:
+                wb.close()
+            return [4, f, W(table), [S(k) for k in probes], obs]
         if inp["stream"] == "perm":
             t, pi = inp["table"], inp["perm"]
             n = len(pi)
